@@ -16,10 +16,10 @@ B: begins with a paragraph, an ATX heading, a Setext heading or a horizontal rul
    line would continue A's list / code / quote by design.)  Reference-style links are allowed in A and B: with no definition
    anywhere they stay literal in all three conversions.
 
-True exclusions found by experiment on the unchanged tree (both are other properties' known findings leaking in):
-   * F-C09-1: a whitespace-only FIRST line of A is not emptied by the normaliser, while convert(A) of an all-blank A is '' and
-     `A + "\n\n" + B` turns it into content ('    \n\nB' -> empty code block).  A's first line is never whitespace-only unless A is
-     empty; the predicate tags the case if it is hit.
+A whitespace-only A (any width, tabs, several lines) and an A whose FIRST line is whitespace-only are generated on purpose: F-C09-1 (such a
+first line was not emptied: '    \n\nB' gave an empty code block) is repaired, convert(A) is '' and the combined document must equal
+convert(B); nothing tags that shape any more.
+One other property's known finding can leak in and is tagged:
    * F-C10-2: a leaked inline placeholder (`[]("\((`) makes the output depend on the running stash counter; tagged when any of the
      three outputs contains STX, ETX or the stem `klzzwxh:`.
 """
@@ -58,10 +58,12 @@ def gen_A(rng):
     if rng.random() < 0.03: return ''
     a = gen_text(rng)
     if rng.random() < 0.2: a += rng.choice(['\n', '\n\n', '\n\n\n', '  ', '\\', '\n    ', ' \n', '\n>', '\n- ', '\n\n    code\n\n'])
-    ls = a.split('\n')
-    if ls[0] and not ls[0].strip(' \t'):          # F-C09-1 region: not generated
-        ls[0] = ''
-    return '\n'.join(ls)
+    k = rng.random()
+    if k < 0.04:                                   # A consisting of white space only (any width, tabs, several lines): renders '' and must not disturb B
+        return ''.join(rng.choice([' ', '  ', '    ', '     ', '\t', ' \t', '        ', '\n', '\n']) for _ in range(rng.randint(1, 4)))
+    if k < 0.10:                                   # a whitespace-only FIRST line in front of real content
+        a = rng.choice([' ', '  ', '    ', '      ', '\t', '  \t ']) + rng.choice(['\n', '\n\n']) + a
+    return a
 
 
 def first_line_ok(L):
@@ -111,16 +113,13 @@ def evaluate(A, B, md=None):
     if oab == want: return 'ok', (oa, ob)
     finding = None
     if any(('\x02' in o or '\x03' in o or 'klzzwxh:' in o) for o in (oa, ob, oab)): finding = 'F-C10-2'
-    else:
-        l0 = A.split('\n')[0]
-        if l0 and not l0.strip(' \t'): finding = 'F-C09-1'
     return 'viol', {'input': {'A': A, 'B': B}, 'config': {}, 'observed': repr(oab), 'required': repr(want), 'finding': finding}
 
 
 def _exc_violation(e, inp, config, text):
-    """an unexpected exception is reported as a violation (the property cannot hold for an input that does not convert);
-    the known `<![` assertion (F-C02-1) is tagged"""
-    known = 'F-C02-1' if isinstance(e, AssertionError) and '<![' in text else None
+    """an unexpected exception is reported as a violation (the property cannot hold for an input that does not convert); nothing is
+    tagged: the `<![` assertion F-C02-1 is repaired, a recurrence is an ordinary violation"""
+    known = None
     return {'input': inp, 'config': config, 'observed': 'raised ' + repr(e), 'required': 'a conversion result', 'finding': known}
 
 
